@@ -16,7 +16,7 @@ from sa.model import AnalysisError, FuncInfo
 from sa.ctx import Ctx, short, stmt_key
 from sa.cfg import NORMAL, describe_path
 from sa.lockset import LockSet
-from sa.report import Report
+from sa.report import Report, section
 from sa.util import cfg_root, node_has_call, node_stores_attr, has_fact, fact_in
 from sa import pat
 
@@ -525,13 +525,13 @@ class C16:
 
 def run(ctx: Ctx, rep: Report, tier: str):
     c = C16(ctx, rep)
-    c.p1()
-    c.p2()
-    c.p3()
-    c.p4()
-    c.p3b()
-    c.p9_p10()
-    c.p5_p6()
-    c.p7()
-    c.p8()
+    section(rep, c.p1)
+    section(rep, c.p2)
+    section(rep, c.p3)
+    section(rep, c.p4)
+    section(rep, c.p3b)
+    section(rep, c.p9_p10)
+    section(rep, c.p5_p6)
+    section(rep, c.p7)
+    section(rep, c.p8)
     rep.assume("Python's OSError subclasses and errno values mean what the os module documents")
